@@ -6,12 +6,12 @@ From LH Require Import Base.Bytes Model.Lexer Model.Ast Model.Scope Model.Global
 Import ListNotations.
 Local Open Scope Z_scope.
 
-Lemma local_vars_shape il : forall es nls lc, (length es <= length nls)%nat ->
+Lemma local_vars_shape il : forall es nls lc,
   map (fun v => (v_name v, v_loc v)) (local_vars es nls lc il) = nls.
 Proof.
-  induction es as [|e r IH]; intros nls lc Hlen; cbn [local_vars].
-  - rewrite map_map. cbn [v_name v_loc]. induction nls as [|[a b] t IHt]; [reflexivity|]. cbn [map fst snd]. rewrite IHt by (cbn; lia). reflexivity.
-  - destruct nls as [|[nm l] nls']; [cbn in Hlen; lia|]. cbn [map v_name v_loc]. rewrite IH by (cbn in Hlen; lia). reflexivity.
+  induction es as [|e r IH]; intros nls lc; cbn [local_vars].
+  - rewrite map_map. cbn [v_name v_loc]. induction nls as [|[a b] t IHt]; [reflexivity|]. cbn [map fst snd]. rewrite IHt. reflexivity.
+  - destruct nls as [|[nm l] nls']; [reflexivity|]. cbn [map v_name v_loc]. rewrite IH. reflexivity.
 Qed.
 
 Lemma local_vars_ref_at il : forall es nls lc i e v,
@@ -106,7 +106,7 @@ Proof.
   intros Hlen Hle He Hc Hi Hv Hn.
   apply In_nth_error in Hv. destruct Hv as (j & Hj).
   assert (Hsh : nth_error (combine ns ls) j = Some (v_name v, v_loc v)).
-  { rewrite <- (local_vars_shape il es (combine ns ls) RNone) by (rewrite combine_length; lia).
+  { rewrite <- (local_vars_shape il es (combine ns ls) RNone).
     rewrite nth_error_map, Hj. reflexivity. }
   destruct (nth_error_combine ns ls j _ _ Hsh) as [Hnj Hlj].
   assert (Hil : (i < length ns)%nat).
@@ -119,7 +119,7 @@ Qed.
 Lemma local_names_in il ns ls es v :
   (length es <= length (combine ns ls))%nat -> In v (local_vars es (combine ns ls) RNone il) -> In (v_name v) ns.
 Proof.
-  intros Hle Hv. pose proof (local_vars_shape il es (combine ns ls) RNone Hle) as Hs.
+  intros Hle Hv. pose proof (local_vars_shape il es (combine ns ls) RNone) as Hs.
 
   assert (Hin : In (v_name v, v_loc v) (combine ns ls)).
   { rewrite <- Hs. apply (in_map (fun v => (v_name v, v_loc v))). exact Hv. }
